@@ -3,6 +3,7 @@ mod capi;
 mod chain;
 mod dlog;
 mod expr;
+mod ingest;
 mod chainrec;
 mod keycodec;
 mod keys;
@@ -40,6 +41,9 @@ fn main() {
         "keys-replay" => keycodec::cmd_replay(&args[2], &args[3], args[4].parse().unwrap()),
         "capi-child" => capi::cmd_child(&args[2]),
         "capi-replay" => capi::cmd_replay(&args[2], &args[3]),
+        "ingest-replay" => ingest::cmd_replay(&args[2], &args[3]),
+        "ingest-fuzz" => ingest::cmd_fuzz(args[2].parse().unwrap(), &args[3]),
+        "ingest-child" => ingest::cmd_child(&args[2], args[3].parse().unwrap()),
         "auth-replay" => auth::cmd_replay(&args[2], &args[3]),
         "dlog-replay" => dlog::cmd_replay(&args[2], &args[3]),
         "chain-honest" => chain::cmd_honest(&args[2], &args[3]),
